@@ -168,14 +168,14 @@ def _same(a, b):
 
 
 class World:
-    def __init__(self, kind, flavour, with_aux, nsys, assign_mode="parity"):
+    def __init__(self, kind, flavour, with_aux, nsys, assign_mode="parity", metric="dense"):
         from mici.states import ChainState
 
         self.kind, self.assign_mode = kind, assign_mode
         import copy as _copy
 
         self.models = {1: zoo.Model(3, with_aux=with_aux)}
-        self.systems = {1: zoo.make_system(kind, self.models[1], flavour=flavour)}
+        self.systems = {1: zoo.make_system(kind, self.models[1], flavour=flavour, metric=metric)}
         if nsys > 1:
             # the second system object is a DUPLICATE (deep copy) of the first one, taken after the first one
             # has already been used, with a different target: two distinct system objects sharing states
@@ -410,6 +410,46 @@ def _run_job(args):
     }
 
 
+def alias_family():
+    """Histories aimed at cached values that ALIAS a variable array of the state (the identity metric applied
+    to the momentum returns the momentum array itself, the Gaussian system's dh2_dpos the position array):
+    every method is called on o1, o1 is copied / pickled, a variable of one of the two states is updated with
+    the in-place idiom of the flows (state.mom -= ...), and every method is called on both states again.
+    Decided by the from-scratch oracle only (C09); returns (violations, number of calls)."""
+    viol, ncalls = [], 0
+    for kind, flavours, wa in configurations("quick"):
+        if not wa:
+            continue
+        metrics = ("identity", "dense", "diag") if kind in ("Euclidean", "Gaussian", "Constrained", "ConstrainedHausdorff") else ("dense",)
+        for metric in metrics:
+            for fl in flavours[:1]:
+                for derive in ("copy", "copy-ro", "pickle"):
+                    for touched in (1, 2):
+                        if derive == "copy-ro" and touched == 2:
+                            continue
+                        w = World(kind, fl, wa, 1, assign_mode="inplace", metric=metric)
+                        methods = TABLE_METHODS[kind]
+                        hist = [{"op": "call", "s": 1, "m": m, "o": 1} for m in methods]
+                        hist.append({"op": "pickle", "o": 1, "n": 2} if derive == "pickle" else
+                                    {"op": "copy", "o": 1, "n": 2, "readonly": derive == "copy-ro"})
+                        hist += [{"op": "assign", "o": touched, "v": "mom"}, {"op": "assign", "o": touched, "v": "pos"}]
+                        hist += [{"op": "call", "s": 1, "m": m, "o": o} for o in (2, 1) for m in methods]
+                        for i, act in enumerate(hist):
+                            try:
+                                obs = w.apply(act)
+                            except Exception as e:  # noqa: BLE001
+                                raise MachineryError(f"alias family: {kind}/{metric}: {act} raised {e!r}") from e
+                            if act["op"] == "call":
+                                ncalls += 1
+                                if not obs["same"]:
+                                    viol.append(("C09", f"C09:{kind}.{act['m']}:stale-value",
+                                                 f"{kind} (metric {metric}).{act['m']} returned a value different from a from-scratch evaluation on "
+                                                 f"the current variable values after history {_short(hist[: i + 1])}",
+                                                 {"engine": "statecache-alias", "kind": kind, "metric": metric, "derive": derive, "touched": touched}))
+                                    break
+    return viol, ncalls
+
+
 def check_all(tier, seed, pid):
     """Runs every configuration; returns dict with coverage + violations (owner, sig, what, replay) + drifts."""
     import multiprocessing as mp
@@ -431,6 +471,10 @@ def check_all(tier, seed, pid):
         outs = pool.map(_run_job, [(j, tier, seed, pid, sim[0]) for j in jobs], chunksize=1)
     total = {"states": 0, "transitions": 0, "histories": 0, "actions": 0, "calls": 0, "viol": [], "drift": [],
              "tlc_counterexamples": [], "samples": [], "configs": []}
+    av, an = alias_family()
+    total["viol"] += [v for v in av if v[0] == pid]
+    total["calls"] += an
+    total["alias_family_calls"] = an
     for o in outs:
         for k in ("states", "transitions", "histories", "actions", "calls"):
             total[k] += o[k]
